@@ -92,7 +92,7 @@ pub fn act_err(e: &ActuationError) -> Tok {
     }
 }
 
-type SubStream = Pin<Box<dyn Stream<Item = EntryUpdates> + Send>>;
+pub type SubStream = Pin<Box<dyn Stream<Item = EntryUpdates> + Send>>;
 type QueryStream = Pin<Box<dyn Stream<Item = databroker::broker::QueryResponse> + Send>>;
 
 pub struct World {
@@ -102,6 +102,8 @@ pub struct World {
     pub subs: Vec<Option<SubStream>>,
     pub qsubs: Vec<Option<QueryStream>>,
     pub viss: Option<crate::fam_viss::VissConn>,
+    pub grpc: Option<crate::fam_prov::Grpc>,
+    pub sprovs: HashMap<usize, crate::fam_prov::ProvStream>,
     pub scopes: Vec<String>,
     pub ms_windows: bool,
     /// the VISS server of this case runs with authorization disabled (some VISS operation carries token kind 3)
@@ -124,6 +126,8 @@ impl World {
             subs: vec![],
             qsubs: vec![],
             viss: None,
+            grpc: None,
+            sprovs: HashMap::new(),
             scopes: vec![],
             ms_windows: false,
             viss_open: false,
@@ -500,6 +504,7 @@ async fn step_inner(w: &mut World, l: &[Tok], start: SystemTime) -> Vec<Vec<Tok>
             vec![vec![0]]
         }
         14 => {
+            crate::fam_prov::sync_streams(w).await;
             let all = all();
             let acc = w.broker.authorized_access(&all);
             let mut lines = Vec::new();
@@ -532,7 +537,7 @@ async fn step_inner(w: &mut World, l: &[Tok], start: SystemTime) -> Vec<Vec<Tok>
             lines.push(vec![399]);
             lines
         }
-        20..=32 => crate::fam_api::step_api(w, op, &mut c, start).await,
+        20..=34 => crate::fam_api::step_api(w, op, &mut c, start).await,
         40 => {
             // SUBQ p extras sql_text <syntax tree, read by the model only>
             let (Some(p), Some(_extras), Some(sql)) = (c.next(), c.next(), c.string()) else { return bad };
@@ -566,6 +571,7 @@ async fn step_inner(w: &mut World, l: &[Tok], start: SystemTime) -> Vec<Vec<Tok>
             }
         }
         50..=55 => crate::fam_viss::step_viss(w, op, &mut c, start).await,
+        60 | 61 => crate::fam_prov::step_prov(w, op, &mut c).await,
         41 => {
             let Some(h) = c.next() else { return bad };
             if let Some(s) = w.qsubs.get_mut(h as usize) {
